@@ -211,6 +211,56 @@ def run(check, mirror, tier):
     for variant, (fn, pnames, kmin) in sorted(PARAMS.items()):
         for k in range(kmin, len(pnames) + 1):
             mk(variant, fn, pnames, k)
+
+    # --- variadic aggregates, positional form: f(list) works on the list's items, f(a, b, ..) on the arguments themselves --------------
+    def mk_variadic(fn, k):
+        oid = "variadic/%s/%d" % (fn, k)
+
+        def setup(ex, st):
+            if "bif_" + fn not in pos_bodies:
+                raise MirUnsupported("positional wrapper bif_%s not found" % fn)
+            markers = [U.fresh(ex, st, 1, "arg%d" % i, kinds=["List", "Number", "Boolean", "Null"], list_len=3, ctx_len=1) for i in range(k)]
+            ex.markers = [("arg%d" % i, m) for i, m in enumerate(markers)]
+            pvec = VecV(z3.IntVal(k), markers, "slice:all arguments")
+            pcell = ex.new_cell(st, pvec, "params")
+            for i in range(k):
+                st.cells[("marker-of", pcell, (("index", i),))] = "arg%d" % i
+
+            def runner(ex, st):
+                yield from ex.run_body(st, pos_bodies["bif_" + fn], [Ref(pcell)])
+            return runner, None, {"_k": k, "_markers": markers}
+
+        def post(ex, o, inputs):
+            calls = [e for e in o.st.log if e[0] == "core"]
+            first_is_list = inputs["_markers"][0].disc == U.idx("List")
+            got = [(c[1], c[2]) for c in calls]
+            on_items = got == [(fn, ("arg0.items",))]
+            on_args = got == [(fn, ("slice:all arguments",))]
+            if k == 1:
+                return [("%s(list) aggregates the items of the list, %s(x) the single argument" % (fn, fn),
+                         z3.And(z3.Implies(first_is_list, z3.BoolVal(on_items)), z3.Implies(z3.Not(first_is_list), z3.BoolVal(on_args))))]
+            return [("%s(a, b, ..) aggregates the arguments themselves (a leading list is one of the values, not the list of values)" % fn, z3.BoolVal(on_args))]
+
+        def desc(m, inputs):
+            return {"k": inputs["_k"], "args": [U.describe(m, x, model_value) for x in inputs["_markers"]]}
+
+        def replay(i, rb):
+            fname = fn
+            kinds = [d["kind"] for d in i["args"]]
+            telling = {"Number": ["3", "100", "7"], "List": ["[1, 2]", "[4]", "[5]"], "Boolean": ["true", "false", "true"], "Null": ["null"] * 3}
+            args = [telling.get(kd, ["null"] * 3)[j] for j, kd in enumerate(kinds)]
+            e1 = "%s(%s)" % (fname, ", ".join(args))
+            # the same values as one explicit list: f(a, b, ..) must equal f([a, b, ..]); f([..]) alone is its own reference
+            e2 = "%s([%s])" % (fname, ", ".join(args)) if len(args) > 1 or kinds[0] != "List" else e1
+            _, o1, _ = replay_call(rb, ["feel", e1])
+            _, o2, _ = replay_call(rb, ["feel", e2])
+            n1, n2 = re.sub(r"null\(.*\)$", "null", o1), re.sub(r"null\(.*\)$", "null", o2)
+            return n1 != n2, "%s -> %s ; %s -> %s" % (e1, o1[:80], e2, o2[:80])
+        jobs.append(lambda c: decide(c, crate, oid, setup, post, replay, rb, models=MODELS, unwind=8, describe=desc, budget_s=600, min_paths=1,
+                                     timeout_ms=20000, known_predicates=KNOWN_PRED))
+    for fn in ("max", "min", "sum", "mean", "median", "mode", "all", "any"):
+        for k in (1, 2, 3):
+            mk_variadic(fn, k)
     from checks import C08_core
     C08_core.jobs_for(check, mirror, rb, crate, U, jobs, tier, KNOWN_PRED)
     run_parallel(check, jobs)
